@@ -549,6 +549,11 @@ package xmss
 //@   requires 4 <= height && height <= 30 && height % 2 == 0 && hashFunction < 16
 //@   ensures[C09] sameKey(a, b)
 
+//@ func verifLemmaRecoverFromMnemonic
+//@   props C09
+//@   requires 4 <= height && height <= 30 && height % 2 == 0 && hashFunction < 16
+//@   ensures[C09] sameKey(a, b)
+
 //@ func verifLemmaFreshKeyRegenerates
 //@   props C09
 //@   requires 4 <= height && height <= 30 && height % 2 == 0 && hashFunction < 16
